@@ -24,6 +24,7 @@ RULE = (
     "missing fields are only required to be finite. Non-trivial = a file with >= 1 het, >= 1 hom and >= 1 "
     "filtered record and a range holding >= 2 hets; distinct = distinct case JSON."
 )
+CLI_SHARE = 4  # one case in CLI_SHARE also goes through the command line (vk/cli.py)
 QUICK = {"examples": 2400, "shards": 16, "budget_s": 400}
 THOROUGH = {"examples": 16000, "shards": 16, "budget_s": 3000}
 ASSUMPTIONS = [
